@@ -337,4 +337,15 @@ example :
     (dropR s.σ).host.stack = [(1, false)] ∧ (persist s.σ).2.2.host.stack = [(1, false)] := by
   decide
 
+/-- K6 (known finding `last-handle-dropped-while-entered`): the point that `wfDrops` excludes.
+    `new 1; entered 1; dropped 1` — the guest drops the last handle of an entered span — leaves
+    host span 1 on the host's stack after the receiver is dropped or persisted. -/
+theorem C04_counterexample_drop_while_entered :
+    let d : CallSite := ⟨.span, [115], [97], .info, none, none, none, []⟩
+    let ops : List HOp := [.ev (.newCallSite 10 d), .ev (.newSpan 1 none 10 []), .ev (.entered 1), .ev (.dropped 1)]
+    let s := runHistory (Sys.init {}) ops
+    wfDrops (Sys.init {}) ops = false ∧
+    (dropR s.σ).host.stack ≠ [] ∧ (persist s.σ).2.2.host.stack ≠ [] := by
+  decide
+
 end TT
